@@ -179,6 +179,38 @@ class Prediction:
 # generator of histories
 
 
+def add_twins(rng, schema, prob=0.5):
+    """For typed list/dict fields add a sibling of the same shape whose item fields have no constraints or
+    transforms: values read from it are typed proxies holding items the original must validate again."""
+    import copy as _copy
+
+    sch = model.fields_of(schema)
+    used = {ch["key"] for ch in sch["fields"]}
+    for ch in list(sch["fields"]):
+        if ch["kind"] in ("schema", "ctype"):
+            add_twins(rng, ch, prob)
+            continue
+        if ch["family"] not in ("list", "dict") or not _typed(ch) or rng.random() > prob:
+            continue
+        twin = _copy.deepcopy(ch)
+        twin["key"] = ch["key"] + "_tw"
+        if twin["key"] in used:
+            continue
+        for sub in ("item", "keyf", "valf"):
+            node = twin.get(sub)
+            if node and node.get("kind") == "field":
+                fam = node["family"]
+                loose = {"str": "str", "loglevel": "str", "appmode": "str", "ipv4": "str", "net": "str", "host": "str", "url": "str",
+                         "file": "str", "int": "int", "port": "int", "float": "float"}.get(fam)
+                if loose:
+                    twin[sub] = {"kind": "field", "family": loose, "params": {}}
+        twin["params"] = {k: v for k, v in twin.get("params", {}).items() if k not in ("default", "required")}
+        twin["twin_of"] = ch["key"]
+        ch["has_twin"] = True
+        sch["fields"].append(twin)
+        used.add(twin["key"])
+
+
 def all_paths(root, through_lists=True):
     return [(p, n) for p, n in spec.walk(root) if through_lists or "[]" not in p]
 
@@ -195,7 +227,7 @@ def gen_ops(rng, root, env, n, profile="mixed", bad=0.3):
     for _ in range(n):
         kind = weighted(rng, [(8, "set"), (2, "set_sub" if subs else "set"), (1.2, "ctor"), (2, "load_tree"), (1.5, "loads"),
                               (1, "cmdline"), (2, "reset"), (5 if lists else 0, "listop"), (4 if dicts else 0, "dictop"),
-                              (0.7, "set_dynamic")])
+                              (0.7, "set_dynamic"), (1.5 if len(leaves) > 1 else 0, "copy")])
         want = "invalid" if rng.random() < bad else "valid"
         if kind == "set" and leaves:
             p, nd = rng.choice(leaves)
@@ -259,6 +291,7 @@ def gen_ops(rng, root, env, n, profile="mixed", bad=0.3):
                 return t if rng.random() < 0.85 or w == "valid" else rng.choice([5, "x", None])
 
             op["x"] = ival()
+            op["as_config"] = item is not None and item["kind"] != "field" and rng.random() < 0.4
             op["xs"] = [ival("valid" if rng.random() < 0.8 else want) for _ in range(rng.choice([0, 1, 2, 3]))]
             op["iter"] = rng.choice(["list", "tuple", "iter", "gen"])
             op["a"], op["b"] = rng.choice([None, 0, 1, -1]), rng.choice([None, 0, 2, -1])
@@ -277,6 +310,16 @@ def gen_ops(rng, root, env, n, profile="mixed", bad=0.3):
                   "pairs": [kv("valid" if rng.random() < 0.8 else want) for _ in range(rng.choice([0, 1, 2]))],
                   "kind": rng.choice(["dict", "pairs", "iter"])}
             ops.append(op)
+        elif kind == "copy":
+            # assign to one field the live value (possibly a typed proxy) read from another field
+            (src, snd), (dst, dnd) = rng.sample(leaves, 2)
+            same = [(p, nd) for p, nd in leaves if nd["family"] == dnd["family"] and p != dst]
+            twins = [(p, nd) for p, nd in same if p == dst + "_tw" or dst == p + "_tw"]
+            if twins and rng.random() < 0.85:
+                src, snd = rng.choice(twins)
+            elif same and rng.random() < 0.7:
+                src, snd = rng.choice(same)
+            ops.append({"op": "copy", "src": src, "dst": dst, "route": rng.choice(["attr", "item"])})
         elif kind == "set_dynamic":
             dyn = [""] + [p for p, nd in subs if "[]" not in p]
             p = rng.choice(dyn)
@@ -420,6 +463,53 @@ class Driver:
             pred.unpredicted = label is None
         return {"kind": kind, "path": path, "raised": exc, "label": label, "norm": norm, "pred": pred, "before": before,
                 "listed": True, "node": nd, "value": value}
+
+    def _op_copy(self, op):
+        cc, cfg = self.cc, self.cfg
+        src, dst = self.concrete(op["src"]), self.concrete(op["dst"])
+        if src is None or dst is None or src == dst:
+            return None
+        nd = self.node(dst)
+        if nd is None or nd["kind"] != "field":
+            return None
+        try:
+            value = spec.get_path(cfg, src)
+        except Exception:
+            return None
+        if isinstance(value, cc.Config):
+            return None
+        if isinstance(value, (list, dict)):
+            # only typed proxies without configuration items, into typed containers: anything else is stored by
+            # reference (plain Python aliasing of one mutable object in two fields), which no property forbids
+            if not isinstance(value, (cc.ListProxy, cc.DictProxy)) or _holds_config(cc, value):
+                return None
+            if nd["family"] not in ("list", "dict") or not _typed(nd):
+                return None
+        if isinstance(value, tuple) and nd["family"] != "challenge":
+            return None  # a digest value is a tuple: not a sensible argument for other fields
+        pv = plain(value)
+        label, norm = model.accepts(nd, pv, self.env)
+        parent_path, key = spec.split_parent(dst)
+        try:
+            parent = spec.get_path(cfg, parent_path) if parent_path else cfg
+        except Exception:
+            return None
+        if not isinstance(parent, cc.Config):
+            return None
+        before = self.snapshot()
+        if op["route"] == "attr" or "[" in dst:
+            exc = self._run(lambda: setattr(parent, key, value))
+        else:
+            exc = self._run(lambda: cfg.__setitem__(dst, value))
+        pred = Prediction(clone(before.values), dict(before.flags))
+        if label is True:
+            pset(pred.values, dst, norm)
+            drop_flags(pred.flags, dst)
+            pred.flags[dst] = True
+        else:
+            pred.unpredicted = label is None
+        return {"kind": "set", "path": dst, "raised": exc, "label": label, "norm": norm, "pred": pred, "before": before,
+                "listed": True, "node": nd, "value": pv, "copied_from": src}
 
     def _instance(self, nd, path, tree):
         """A configuration instance of the sub-schema at `path`, loaded with `tree`."""
@@ -671,6 +761,14 @@ class Driver:
         else:
             label = True
         i = op["i"]
+        if op.get("as_config") and single and isinstance(op["x"], dict):
+            # a configuration *object* (not a map) as the item: built outside, possibly invalid as a whole
+            try:
+                inst = proxy.item_field()
+                inst.load_tree(copy.deepcopy(op["x"]), validate=False)
+                x = inst
+            except Exception:
+                return None
         before = self.snapshot()
         fn = {
             "append": lambda: proxy.append(x), "insert": lambda: proxy.insert(i, x), "setitem": lambda: proxy.__setitem__(i, x),
@@ -747,6 +845,33 @@ class Driver:
         pset(pred.values, path, Unknown)
         return {"kind": "dictop:" + name, "path": path, "raised": exc, "label": label, "pred": pred, "before": before,
                 "listed": single, "inplace": True}
+
+
+def _holds_config(cc, value, depth=0):
+    if depth > 6:
+        return True
+    vals = value.values() if isinstance(value, dict) else value
+    for v in vals:
+        if isinstance(v, cc.Config):
+            return True
+        if isinstance(v, (list, dict)) and _holds_config(cc, v, depth + 1):
+            return True
+    return False
+
+
+def _typed(nd):
+    """Is every level of this container field typed (so that assigning a proxy makes a validated copy)?"""
+    if nd["family"] == "list":
+        it = nd.get("item")
+        if it is None or it.get("kind") != "field" or it["family"] in ("any", "secure"):
+            return False
+        return _typed(it) if it["family"] in ("list", "dict") else True
+    if nd["family"] == "dict":
+        vf = nd.get("valf")
+        if vf is None or vf["family"] in ("any", "secure"):
+            return False
+        return _typed(vf) if vf["family"] in ("list", "dict") else True
+    return True
 
 
 def _model_view(values):
